@@ -22,6 +22,7 @@ import (
 	"encoding/hex"
 	"regexp"
 	"regexp/syntax"
+	"runtime/debug"
 	"sort"
 	"strconv"
 	"strings"
@@ -106,9 +107,11 @@ type Exec struct {
 	rng      *rand.Rand
 	virtual  bool
 	failNext int // arm a storage fault at this FS op index for the next op (-1: none)
+	crash    bool // the armed fault is a crash
 	obs      []string // r/s lines of the current op (also kept for the direct oracles)
 	spec     *Spec
 	strs     map[string]bool // every string seen in this history (case / regex oracle tables)
+	lastFaultAt string
 }
 
 func NewExec(root string, cfg Cfg, w *bufio.Writer, seed int64) *Exec {
@@ -201,6 +204,15 @@ func cls(err error) string {
 	return "other"
 }
 
+// rd: read errors of enumerating reads are one class (which object fails first depends on map order)
+func rd(c string) string {
+	switch c {
+	case "notfound", "json", "other":
+		return "readerr"
+	}
+	return c
+}
+
 func (e *Exec) emit(format string, a ...interface{}) {
 	l := fmt.Sprintf(format, a...)
 	e.obs = append(e.obs, l)
@@ -208,8 +220,15 @@ func (e *Exec) emit(format string, a ...interface{}) {
 }
 
 // safe runs f, converting a panic into the class "panic"
+var panStack string
+
 func safe(f func()) (p interface{}) {
-	defer func() { p = recover() }()
+	defer func() {
+		p = recover()
+		if p != nil {
+			panStack = string(debug.Stack())
+		}
+	}()
 	f()
 	return nil
 }
@@ -360,8 +379,13 @@ func (e *Exec) Step(line string) {
 		return
 	}
 	e.oracles(t)
-	if e.failNext >= 0 {
-		vshim.ArmFault(e.failNext, false)
+	armed := e.failNext >= 0
+	if armed {
+		if e.crash {
+			vshim.ArmCrash(e.failNext)
+		} else {
+			vshim.ArmFault(e.failNext, true)
+		}
 	}
 	var pan interface{}
 	done := make(chan struct{})
@@ -377,14 +401,44 @@ func (e *Exec) Step(line string) {
 		fmt.Fprintln(os.Stderr, "HANG in op: "+line)
 		os.Exit(3)
 	}
+	crashed := false
 	if pan != nil {
-		e.emit("r panic")
-		e.emit("# panic: %v", strings.ReplaceAll(fmt.Sprint(pan), "\n", " "))
+		if pan == interface{}(vshim.Crash) || vshim.IsDead() { // (a deferred call may panic again while unwinding)
+			crashed = true
+			// the process died: drop whatever the call had printed, the handle is gone
+			e.obs = e.obs[:0]
+			e.emit("r crash")
+			e.db = sod.Open(e.root)
+			e.searches = map[int]*srch{}
+		} else {
+			e.emit("r panic")
+			e.emit("# panic: %v", strings.ReplaceAll(fmt.Sprint(pan), "\n", " "))
+			if os.Getenv("HZ_STACK") != "" {
+				fmt.Fprintln(os.Stderr, panStack)
+			}
+		}
 	}
-	if e.failNext >= 0 {
+	if armed {
 		fired, seen := vshim.DisarmFault()
-		e.emit("o fault fired=%s seen=%d", b2s(fired), seen)
+		what := "-"
+		if fired {
+			lf := vshim.LastFault()
+			i := strings.IndexByte(lf, ':')
+			what = lf[:i] + ":object"
+			if strings.HasSuffix(lf, sod.SchemaFilename) {
+				what = lf[:i] + ":schema"
+			} else if lf[:i] == "mkdirall" || lf[:i] == "removeall" {
+				what = lf[:i] + ":dir"
+			}
+		}
+		e.lastFaultAt = what
+		e.emit("o fault fired=%s seen=%d at=%s", b2s(fired), seen, what)
+		if e.crash && !crashed {
+			// the call performed fewer mutations than the crash index: it completed
+			e.emit("o nocrash")
+		}
 		e.failNext = -1
+		e.crash = false
 	}
 	e.quiesce()
 	e.spec.Check(e, t)
@@ -413,11 +467,13 @@ func (e *Exec) step(t []string) {
 	case "ins":
 		f := parseFlat(t[1])
 		r := e.rec(f)
+		defer func() { // also when the call dies in a simulated crash
+			if f.U == 0 {
+				e.emit("o fresh %d", e.unum(r.UUID()))
+			}
+		}()
 		err := db.InsertOrUpdate(r)
-		if f.U == 0 {
-			e.emit("o fresh %d", e.unum(r.UUID()))
-		}
-		e.emit("r %s", cls(err))
+		defer e.emit("r %s", cls(err))
 	case "many", "bulk":
 		i := 1
 		csize := 0
@@ -439,6 +495,15 @@ func (e *Exec) step(t []string) {
 		}
 		var n int
 		var err error
+		defer func() {
+			fr := []string{}
+			for j, o := range objs {
+				if flats[j].U == 0 {
+					fr = append(fr, strconv.Itoa(e.unum(o.UUID())))
+				}
+			}
+			e.emit("o fresh %s", strings.Join(fr, " "))
+		}()
 		if t[0] == "many" {
 			n, err = db.InsertOrUpdateMany(objs...)
 		} else {
@@ -453,21 +518,30 @@ func (e *Exec) step(t []string) {
 			for range ch { // drain if the call stopped early
 			}
 		}
-		fr := []string{}
-		for j, o := range objs {
-			if flats[j].U == 0 {
-				fr = append(fr, strconv.Itoa(e.unum(o.UUID())))
-			}
-		}
-		e.emit("o fresh %s", strings.Join(fr, " "))
-		e.emit("r %s %d", cls(err), n)
+		defer func() { e.emit("r %s %d", cls(err), n) }()
 	case "del":
 		u, _ := strconv.Atoi(t[1])
 		r := &shape.Rec{}
 		r.Initialize(e.ustr(u))
 		e.emit("r %s", cls(db.Delete(r)))
 	case "delall":
-		e.emit("r %s", cls(db.DeleteAll(&shape.Rec{})))
+		// the order in which DeleteAll removes files is Go map order: taken from the FS log
+		vshim.StartRecording()
+		defer func() {
+			var us []string
+			for _, ev := range vshim.StopRecording() {
+				if ev.Kind == "remove" {
+					name := filepath.Base(ev.Path)
+					if i := strings.IndexByte(name, '.'); i >= 0 {
+						name = name[:i]
+					}
+					us = append(us, strconv.Itoa(e.unum(name)))
+				}
+			}
+			e.emit("o order %s", strings.Join(us, " "))
+		}()
+		err := db.DeleteAll(&shape.Rec{})
+		defer e.emit("r %s", cls(err))
 	case "get", "getu":
 		u, _ := strconv.Atoi(t[1])
 		var o sod.Object
@@ -515,7 +589,7 @@ func (e *Exec) step(t []string) {
 			ss[i] = fl[i].String()
 		}
 		if err != nil {
-			e.emit("r %s", cls(err))
+			e.emit("r %s", rd(cls(err)))
 		} else {
 			e.emit("r ok %d %s", len(fl), strings.Join(ss, " "))
 		}
@@ -546,7 +620,11 @@ func (e *Exec) step(t []string) {
 			det = det && old.det
 		}
 		e.searches[sid] = &srch{s, det}
-		e.emit("r %s %d", cls(s.Err()), s.Len())
+		if s.Err() != nil {
+			e.emit("r %s 0", rd(cls(s.Err()))) // the length of a failed search is not an observable
+		} else {
+			e.emit("r ok %d", s.Len())
+		}
 	case "len":
 		sid, _ := strconv.Atoi(t[1])
 		e.emit("r ok %d", e.searches[sid].s.Len())
@@ -589,7 +667,7 @@ func (e *Exec) step(t []string) {
 			}
 		}
 		if err != nil {
-			e.emit("r %s", cls(err))
+			e.emit("r %s", rd(cls(err)))
 		} else {
 			e.emit("r ok %d %s", len(objs), strings.Join(fl, " "))
 		}
@@ -636,8 +714,9 @@ func (e *Exec) step(t []string) {
 			e.emit("r ok")
 			e.emit("# released %d", rel)
 		}
-	case "failat":
+	case "failat", "crashat":
 		e.failNext, _ = strconv.Atoi(t[1])
+		e.crash = t[0] == "crashat"
 		e.emit("r ok")
 	case "rmfile", "corrupt", "truncfile":
 		u, _ := strconv.Atoi(t[1])
@@ -1056,6 +1135,9 @@ func (e *Exec) schemaDump(path string) {
 
 func (e *Exec) fileFault(kind string, u int) string {
 	path := filepath.Join(e.colDir(), e.fileName(u))
+	if _, err := os.Stat(path); err != nil {
+		return cls(err)
+	}
 	switch kind {
 	case "rmfile":
 		return cls(os.Remove(path))
